@@ -186,6 +186,10 @@ async fn log_case<S: Store>(c: &J, rep: &mut Report, maxidx: u64) {
     }
 }
 
+/// opening a RocksDB costs ~15 ms: the quick tier runs every case on MemStore and every VERIF_ROCKS_STRIDE-th one on RocksStore too
+#[allow(dead_code)]
+fn rocks_stride() -> usize { std::env::var("VERIF_ROCKS_STRIDE").ok().and_then(|s| s.parse().ok()).unwrap_or(1) }
+
 fn main() {
     let args: Vec<String> = std::env::args().collect();
     let rt = tokio::runtime::Builder::new_multi_thread().worker_threads(2).enable_all().build().unwrap();
@@ -194,10 +198,10 @@ fn main() {
             let cases = read_cases(&args[2]);
             let mut rep = Report::default();
             rt.block_on(async {
-                for c in &cases {
+                for (_n, c) in cases.iter().enumerate() {
                     sm_case::<MemStore>(c, &mut rep).await;
                     #[cfg(feature = "persistent")]
-                    sm_case::<varpulis_cluster::raft::persistent_store::RocksStore>(c, &mut rep).await;
+                    if _n % rocks_stride() == 0 { sm_case::<varpulis_cluster::raft::persistent_store::RocksStore>(c, &mut rep).await; }
                 }
             });
             rep.write(&args[3]);
@@ -207,10 +211,10 @@ fn main() {
             let maxidx: u64 = args[4].parse().unwrap();
             let mut rep = Report::default();
             rt.block_on(async {
-                for c in &cases {
+                for (_n, c) in cases.iter().enumerate() {
                     log_case::<MemStore>(c, &mut rep, maxidx).await;
                     #[cfg(feature = "persistent")]
-                    log_case::<varpulis_cluster::raft::persistent_store::RocksStore>(c, &mut rep, maxidx).await;
+                    if _n % rocks_stride() == 0 { log_case::<varpulis_cluster::raft::persistent_store::RocksStore>(c, &mut rep, maxidx).await; }
                 }
             });
             rep.write(&args[3]);
